@@ -93,7 +93,14 @@ static inline std::uint64_t getticks() {
   #error "Unsupported architecture"
 #endif
 
+#ifdef XENIUM_VERIF
+extern "C" std::uint64_t xenium_verif_random();
+#endif
+
 inline std::uint64_t random() {
+#ifdef XENIUM_VERIF
+  return ::xenium_verif_random();
+#endif
   return getticks() >> 4;
 }
 } // namespace xenium::utils
